@@ -341,6 +341,58 @@ func init() {
 	})
 
 	register(&PropCheck{
+		ID:      "C03",
+		PkgDirs: []string{"internal/transfer"},
+		Level:   "other",
+		Explanation: "Partial (no wall-clock liveness, no QUIC): (a) every legal relative path of up to 6 arbitrary bytes (non-empty, not absolute, no '..' segment, no NUL) is accepted by validateRelPath - the sender refuses other names, so rejecting a legal one makes a valid tree untransferable; (b) the real RecvManifestMultiStream runs from its entry as symbolic threads against a scripted sender that resumes a transfer: resume metadata with a symbolic bitmap is on disk, the sender asks for the report, sends what is missing plus a duplicate of a chunk that is already there, possibly after the file is complete; under every schedule at blocking points the call must return success - a state in which every goroutine is blocked (waiting for a stream, message or chunk that will not come) is a violation; (c) the healthy small-tree transfer of C01.tree (directory, zero-length file, fewer chunks than streams) likewise. Scheduler fairness, stream budgets and the blocking accept of announced data streams over QUIC are outside.",
+		Rule:        "assertion sites: vAssert lines of H_C03_names, vC04Resume plus the no-deadlock obligation per path",
+		Assumptions: []string{"timers never fire; in-memory streams report EOF at their end", "threads that only write acknowledgements or hash a chunk commute with all others and are scheduled eagerly (partial-order reduction)", "marked chunks on disk equal the source (C05)"},
+		Bounds:      func(tier string) string { return "names <= 6 bytes; resumed file of 5 bytes (quick) / 5, 8 (thorough) in 4-byte chunks, all bitmaps, duplicate of chunk 0 before the missing chunks (quick) / any chunk before or after (thorough)" },
+		Jobs: func(tier string, prog *ssa.Program) []*Job {
+			n := hj("C03.names", "H_C03_names", "legal names are accepted")
+			n.MaxSymAlloc = 8
+			n.Workers = 12
+			r := hj("C03.resume-duplicates", "H_C04_resume", "resumed transfer with late duplicates completes under every schedule")
+			if tier == "thorough" {
+				r = hj("C03.resume-duplicates", "H_C04_resume_deep", "resumed transfer with late duplicates completes under every schedule (deep)")
+			}
+			r.Threads = true
+			r.TimersNeverFire = true
+			r.EagerCalls = []string{"writeFileDone", "hashFileChunk"}
+			r.Workers = 16
+			r.MaxPaths = 5000000
+			return []*Job{n, r}
+		},
+	})
+
+	register(&PropCheck{
+		ID:      "C04",
+		PkgDirs: []string{"internal/transfer"},
+		Level:   "other",
+		Explanation: "Partial: the second run of an interrupted transfer at small scale, plus the sender's plan. (a) The real RecvManifestMultiStream runs from its entry (goroutines as symbolic threads) with resume metadata and a partial file on disk - symbolic bitmap, marked chunks equal to the source as C05 guarantees - against a scripted sender that requests the report and sends exactly the chunks the bitmap does not mark (plus a duplicate): the call succeeds, the file equals the source, and every FileResumeInfo the receiver wrote carries the bitmap found on disk, the file's chunk count and the highest marked chunk as verification point. (b) The sender's real applyResumeInfo closure and nextChunkToSend (C17.plan obligation, re-run here): a chunk is skipped only if reported present below the verification point, every unset chunk is sent, the verification tail and a mismatching hash are re-sent. Every kill point leaving a sound disk state is C05; chains of interrupted runs follow by induction over runs (paper step).",
+		Rule:        "assertion sites: vAssert lines of vC04Resume and the engine-side assertions of the plan closure unit",
+		Assumptions: []string{"marked chunks on disk equal the source (established by C05)", "timers never fire; threads that only write acknowledgements or hash a chunk are scheduled eagerly", "composition over repeated interruptions is a paper step"},
+		Bounds:      func(tier string) string { return "file of 5 bytes (quick) / 5, 8 (thorough), chunk size 4, all bitmaps; plan: <= 3 (quick) / 5 (thorough) chunks" },
+		Jobs: func(tier string, prog *ssa.Program) []*Job {
+			r := hj("C04.resume", "H_C04_resume", "resumed transfer: report equals disk metadata, result identical")
+			if tier == "thorough" {
+				r = hj("C04.resume", "H_C04_resume_deep", "resumed transfer (deep)")
+			}
+			r.Threads = true
+			r.TimersNeverFire = true
+			r.EagerCalls = []string{"writeFileDone", "hashFileChunk"}
+			r.Workers = 16
+			r.MaxPaths = 5000000
+			pl := jobResumePlan("C04.plan", 3)
+			if tier == "thorough" {
+				pl = jobResumePlan("C04.plan", 5)
+			}
+			pl.Workers = 8
+			return []*Job{r, pl}
+		},
+	})
+
+	register(&PropCheck{
 		ID:      "C05",
 		PkgDirs: []string{"internal/transfer"},
 		Level:   "other",
